@@ -173,7 +173,7 @@ theorem confluence_partial :
 example : (C04.reach 2 C04.exProg 1 [.worker 0 100 5 [] [], .env [100, 100]]).cmdQ 1 ≠ [] ∧
     (C04.reach 2 C04.exProg 1 [.worker 0 100 5 [] [], .env [100, 100]]).cmdQ 0 ≠ [] := by decide
 
-/-! ### confluence of the await/spawn fragment: determinacy proved, progress stated -/
+/-! ### confluence: determinacy proved (await/spawn/send/receive), progress stated -/
 
 /-- an idle state is past the start-up phase -/
 theorem not_preStart_of_idle {s : Sys} (hidle : s.idle) : ¬ PreStart s := by
@@ -183,29 +183,43 @@ theorem not_preStart_of_idle {s : Sys} (hidle : s.idle) : ¬ PreStart s := by
   rw [hq] at this
   cases k <;> simp [List.replicate] at this
 
-/-- **Kahn invariant**, reachable states: for a script table with a static register typing
-(`RegTyping`: await/spawn/send scripts, every select one process source) every process's history
-`acc` is THE trace of its script at its position, and a finished process's result is the value of
-its complete trace — for every worker count, slicing, interleaving and ordering hint. -/
-theorem kahn_invariant (ρ : Nat → Nat → Nat) (ar : Nat → Nat) (n : Nat) (prog : Prog) (req : Nat) (hn : 0 < n)
-    (hwf : ProgWF prog) (hty : RegTyping prog ρ ar) (cs : List Choice) :
-    PreStart (C04.reach n prog req cs) ∨ KInv ρ ar (C04.reach n prog req cs) :=
-  QM.Sys.kahn_invariant ρ ar n prog req hn hwf hty cs
+/-- no script of the table receives -/
+def NoRecv (prog : Prog) : Prop := ∀ k, hasRecv prog k = false
+
+theorem streamOK_of_noRecv {prog : Prog} (h : NoRecv prog) (σ : Nat → List (Nat × Nat)) (s : Sys) (hp : s.prog = prog) :
+    StreamOK σ s := by
+  intro w p x _ hr
+  rw [hp, h x.fn] at hr; cases hr
 
 theorem reach_prog (n : Nat) (prog : Prog) (req : Nat) (cs : List Choice) : (C04.reach n prog req cs).prog = prog :=
   run_prog Rules.current (Sys.init n prog req) cs
 
+/-- **Kahn invariant**, reachable states: for a script table with a static register typing
+(`RegTyping`: send/spawn/await/receive scripts, every select ONE process source or ONE receive —
+plain, typed or filter) every process's history `acc` is THE trace of its script at its position,
+and a finished process's result is the value of its complete trace — for every worker count,
+slicing, interleaving and ordering hint, in every run whose arrival histories follow the streams
+`σ` (`StreamOK`: what was appended to the mailbox of a receiving process is a prefix of `σ` of its
+script; vacuous for tables without receives, `streamOK_of_noRecv`). -/
+theorem kahn_invariant (ρ : Nat → Nat → Nat) (ar : Nat → Nat) (σ : Nat → List (Nat × Nat)) (n : Nat) (prog : Prog) (req : Nat)
+    (hn : 0 < n) (hwf : ProgWF prog) (hty : RegTyping prog ρ ar) (cs : List Choice)
+    (hsd : StreamOK σ (C04.reach n prog req cs)) :
+    PreStart (C04.reach n prog req cs) ∨ KInv ρ ar σ (C04.reach n prog req cs) :=
+  QM.Sys.kahn_invariant ρ ar σ n prog req hn hwf hty cs hsd
+
 /-- every process's history is the Kahn trace of its script (started states) -/
-theorem history_is_trace (ρ : Nat → Nat → Nat) (ar : Nat → Nat) (n : Nat) (prog : Prog) (req : Nat) (hn : 0 < n)
-    (hwf : ProgWF prog) (hty : RegTyping prog ρ ar) (cs : List Choice) (hs : ¬ PreStart (C04.reach n prog req cs))
+theorem history_is_trace (ρ : Nat → Nat → Nat) (ar : Nat → Nat) (σ : Nat → List (Nat × Nat)) (n : Nat) (prog : Prog) (req : Nat)
+    (hn : 0 < n) (hwf : ProgWF prog) (hty : RegTyping prog ρ ar) (cs : List Choice)
+    (hsd : StreamOK σ (C04.reach n prog req cs)) (hs : ¬ PreStart (C04.reach n prog req cs))
     (w : Wid) (p : Pid) (x : Proc) (hx : ((C04.reach n prog req cs).wk w).procs p = some x) :
-    Trace prog ρ x.fn x.pc x.acc ∧
+    (∃ rem, Trace prog ρ σ x.fn x.pc x.acc rem) ∧
     (∀ r, x.result = some r → r = .ok x.value ∧ x.pc = (prog.getD x.fn []).length) := by
-  rcases kahn_invariant ρ ar n prog req hn hwf hty cs with h | h
+  rcases kahn_invariant ρ ar σ n prog req hn hwf hty cs hsd with h | h
   · exact absurd h hs
   · have hp := h.procs w p x hx
     have hpr := reach_prog n prog req cs
-    refine ⟨by have := hp.trace; rwa [hpr] at this, ?_⟩
+    obtain ⟨rem, htr, _⟩ := hp.trace
+    refine ⟨⟨rem, by rwa [hpr] at htr⟩, ?_⟩
     intro r hr
     cases r with
     | err => exact absurd hr hp.noerr
@@ -216,38 +230,52 @@ theorem history_is_trace (ρ : Nat → Nat → Nat) (ar : Nat → Nat) (n : Nat)
 
 /-- **Determinacy of histories** across runs: two processes that run the same script — in two runs
 with any worker counts, quanta, schedules — have prefix-related histories. -/
-theorem confluence_histories_agree (ρ : Nat → Nat → Nat) (ar : Nat → Nat) (prog : Prog) (hwf : ProgWF prog)
-    (hty : RegTyping prog ρ ar) (n1 n2 req1 req2 : Nat) (cs1 cs2 : List Choice) (hn1 : 0 < n1) (hn2 : 0 < n2)
+theorem confluence_histories_agree (ρ : Nat → Nat → Nat) (ar : Nat → Nat) (σ : Nat → List (Nat × Nat)) (prog : Prog)
+    (hwf : ProgWF prog) (hty : RegTyping prog ρ ar) (n1 n2 req1 req2 : Nat) (cs1 cs2 : List Choice) (hn1 : 0 < n1) (hn2 : 0 < n2)
+    (hsd1 : StreamOK σ (C04.reach n1 prog req1 cs1)) (hsd2 : StreamOK σ (C04.reach n2 prog req2 cs2))
     (hs1 : ¬ PreStart (C04.reach n1 prog req1 cs1)) (hs2 : ¬ PreStart (C04.reach n2 prog req2 cs2))
     (w1 w2 : Wid) (p1 p2 : Pid) (x1 x2 : Proc)
     (hx1 : ((C04.reach n1 prog req1 cs1).wk w1).procs p1 = some x1)
     (hx2 : ((C04.reach n2 prog req2 cs2).wk w2).procs p2 = some x2)
     (hfn : x1.fn = x2.fn) (hle : x1.pc ≤ x2.pc) : x1.acc <+: x2.acc := by
-  have t1 := (history_is_trace ρ ar n1 prog req1 hn1 hwf hty cs1 hs1 w1 p1 x1 hx1).1
-  have t2 := (history_is_trace ρ ar n2 prog req2 hn2 hwf hty cs2 hs2 w2 p2 x2 hx2).1
+  obtain ⟨r1, t1⟩ := (history_is_trace ρ ar σ n1 prog req1 hn1 hwf hty cs1 hsd1 hs1 w1 p1 x1 hx1).1
+  obtain ⟨r2, t2⟩ := (history_is_trace ρ ar σ n2 prog req2 hn2 hwf hty cs2 hsd2 hs2 w2 p2 x2 hx2).1
   rw [hfn] at t1
   exact t2.prefix t1 hle
 
-/-- **Determinacy of results** (the safety half of confluence, await/spawn fragment): whenever two
-runs both have a result for a script, it is the same result — any worker counts, any quanta, any
-interleavings, any ordering hints. -/
-theorem confluence_results_agree (ρ : Nat → Nat → Nat) (ar : Nat → Nat) (prog : Prog) (hwf : ProgWF prog)
-    (hty : RegTyping prog ρ ar) (n1 n2 req1 req2 : Nat) (cs1 cs2 : List Choice) (hn1 : 0 < n1) (hn2 : 0 < n2)
+/-- **Determinacy of results** (the safety half of confluence): whenever two runs both have a
+result for a script, it is the same result — any worker counts, any quanta, any interleavings, any
+ordering hints; send/spawn/await/receive tables, arrival histories following `σ`. -/
+theorem confluence_results_agree (ρ : Nat → Nat → Nat) (ar : Nat → Nat) (σ : Nat → List (Nat × Nat)) (prog : Prog)
+    (hwf : ProgWF prog) (hty : RegTyping prog ρ ar) (n1 n2 req1 req2 : Nat) (cs1 cs2 : List Choice) (hn1 : 0 < n1) (hn2 : 0 < n2)
+    (hsd1 : StreamOK σ (C04.reach n1 prog req1 cs1)) (hsd2 : StreamOK σ (C04.reach n2 prog req2 cs2))
     (hs1 : ¬ PreStart (C04.reach n1 prog req1 cs1)) (hs2 : ¬ PreStart (C04.reach n2 prog req2 cs2))
     (k : Nat) (r1 r2 : Res)
     (h1 : resultOfScript (C04.reach n1 prog req1 cs1) k r1) (h2 : resultOfScript (C04.reach n2 prog req2 cs2) k r2) :
     r1 = r2 := by
   obtain ⟨w1, p1, x1, hx1, hf1, hr1⟩ := h1
   obtain ⟨w2, p2, x2, hx2, hf2, hr2⟩ := h2
-  obtain ⟨t1, f1⟩ := history_is_trace ρ ar n1 prog req1 hn1 hwf hty cs1 hs1 w1 p1 x1 hx1
-  obtain ⟨t2, f2⟩ := history_is_trace ρ ar n2 prog req2 hn2 hwf hty cs2 hs2 w2 p2 x2 hx2
+  obtain ⟨⟨m1, t1⟩, f1⟩ := history_is_trace ρ ar σ n1 prog req1 hn1 hwf hty cs1 hsd1 hs1 w1 p1 x1 hx1
+  obtain ⟨⟨m2, t2⟩, f2⟩ := history_is_trace ρ ar σ n2 prog req2 hn2 hwf hty cs2 hsd2 hs2 w2 p2 x2 hx2
   obtain ⟨e1, l1⟩ := f1 r1 hr1
   obtain ⟨e2, l2⟩ := f2 r2 hr2
   rw [hf1, l1] at t1
   rw [hf2, l2] at t2
   rw [hf1] at t1; rw [hf2] at t2
-  have := t1.det t2
+  have := (t1.det t2).1
   rw [e1, e2]; simp [Proc.value, hf1, hf2, this]
+
+/-- the await/spawn/send fragment (no receive): determinacy of results without any hypothesis on
+the runs -/
+theorem confluence_results_agree_noRecv (ρ : Nat → Nat → Nat) (ar : Nat → Nat) (prog : Prog)
+    (hwf : ProgWF prog) (hty : RegTyping prog ρ ar) (hnr : NoRecv prog)
+    (n1 n2 req1 req2 : Nat) (cs1 cs2 : List Choice) (hn1 : 0 < n1) (hn2 : 0 < n2)
+    (hs1 : ¬ PreStart (C04.reach n1 prog req1 cs1)) (hs2 : ¬ PreStart (C04.reach n2 prog req2 cs2))
+    (k : Nat) (r1 r2 : Res)
+    (h1 : resultOfScript (C04.reach n1 prog req1 cs1) k r1) (h2 : resultOfScript (C04.reach n2 prog req2 cs2) k r2) :
+    r1 = r2 :=
+  confluence_results_agree ρ ar (fun _ => []) prog hwf hty n1 n2 req1 req2 cs1 cs2 hn1 hn2
+    (streamOK_of_noRecv hnr _ _ (reach_prog _ _ _ _)) (streamOK_of_noRecv hnr _ _ (reach_prog _ _ _ _)) hs1 hs2 k r1 r2 h1 h2
 
 /-- the progress half, as a statement about one script table: an idle run has a result for every
 script any other run has a result for -/
@@ -256,20 +284,38 @@ def ProgressStatement (prog : Prog) : Prop :=
     (C04.reach n2 prog req2 cs2).idle →
     ∀ k r, resultOfScript (C04.reach n1 prog req1 cs1) k r → ∃ r', resultOfScript (C04.reach n2 prog req2 cs2) k r'
 
-/-- **Confluence of the await/spawn fragment, up to progress**: the conclusion of
-`ConfluenceStatement` for every script table with a register typing, from `ProgressStatement`
-alone (the single missing hypothesis; it is a liveness property of the await protocol — cf.
-`C04.AwaitAnswerCompleteStatement` — and does not mention results). -/
-theorem confluence_await_spawn_partial (ρ : Nat → Nat → Nat) (ar : Nat → Nat) (prog : Prog) (hwf : ProgWF prog)
-    (hty : RegTyping prog ρ ar) (hprogress : ProgressStatement prog)
+/-- the arrival half, as a statement about one script table and its streams: in every run the
+arrival history of every receiving process is a prefix of the stream of its script (for the
+confluent class — one sender per mailbox — the stream is the sender's static send sequence;
+`mailbox_sequence_determined` is the proved part) -/
+def StreamStatement (prog : Prog) (σ : Nat → List (Nat × Nat)) : Prop :=
+  ∀ (n req : Nat) (cs : List Choice), 0 < n → StreamOK σ (C04.reach n prog req cs)
+
+/-- **Confluence up to progress and arrival order**: the conclusion of `ConfluenceStatement` for
+every send/spawn/await/receive script table with a register typing, from `ProgressStatement` (a
+liveness property of the await protocol, cf. `C04.AwaitAnswerCompleteStatement`; it does not mention
+results) and `StreamStatement` (arrival order; it does not mention results either). -/
+theorem confluence_partial_kahn (ρ : Nat → Nat → Nat) (ar : Nat → Nat) (σ : Nat → List (Nat × Nat)) (prog : Prog)
+    (hwf : ProgWF prog) (hty : RegTyping prog ρ ar) (hprogress : ProgressStatement prog) (hstream : StreamStatement prog σ)
     (n1 n2 req1 req2 : Nat) (cs1 cs2 : List Choice) (hn1 : 0 < n1) (hn2 : 0 < n2)
     (hi1 : (C04.reach n1 prog req1 cs1).idle) (hi2 : (C04.reach n2 prog req2 cs2).idle)
     (k : Nat) (r : Res) (h1 : resultOfScript (C04.reach n1 prog req1 cs1) k r) :
     resultOfScript (C04.reach n2 prog req2 cs2) k r := by
   obtain ⟨r', h2⟩ := hprogress n1 n2 req1 req2 cs1 cs2 hn1 hn2 hi2 k r h1
-  have := confluence_results_agree ρ ar prog hwf hty n1 n2 req1 req2 cs1 cs2 hn1 hn2
+  have := confluence_results_agree ρ ar σ prog hwf hty n1 n2 req1 req2 cs1 cs2 hn1 hn2
+    (hstream n1 req1 cs1 hn1) (hstream n2 req2 cs2 hn2)
     (not_preStart_of_idle hi1) (not_preStart_of_idle hi2) k r r' h1 h2
   rw [this]; exact h2
+
+/-- the await/spawn/send fragment: from `ProgressStatement` alone -/
+theorem confluence_await_spawn_partial (ρ : Nat → Nat → Nat) (ar : Nat → Nat) (prog : Prog) (hwf : ProgWF prog)
+    (hty : RegTyping prog ρ ar) (hnr : NoRecv prog) (hprogress : ProgressStatement prog)
+    (n1 n2 req1 req2 : Nat) (cs1 cs2 : List Choice) (hn1 : 0 < n1) (hn2 : 0 < n2)
+    (hi1 : (C04.reach n1 prog req1 cs1).idle) (hi2 : (C04.reach n2 prog req2 cs2).idle)
+    (k : Nat) (r : Res) (h1 : resultOfScript (C04.reach n1 prog req1 cs1) k r) :
+    resultOfScript (C04.reach n2 prog req2 cs2) k r :=
+  confluence_partial_kahn ρ ar (fun _ => []) prog hwf hty hprogress
+    (fun n req cs _ => streamOK_of_noRecv hnr _ _ (reach_prog _ _ _ _)) n1 n2 req1 req2 cs1 cs2 hn1 hn2 hi1 hi2 k r h1
 
 /-! ### the hypotheses are satisfiable -/
 
@@ -304,6 +350,42 @@ theorem kProg_typed : RegTyping kProg kRho kAr := by
   | 2, 0, h => simp [kProg] at h; subst h; simp [ActTyped, base, nspawn, kAr, kProg]
   | 2, j + 1, h => simp [kProg] at h
   | k + 3, j, h => simp [kProg] at h
+
+theorem kProg_noRecv : NoRecv kProg := by
+  intro k
+  match k with
+  | 0 => rfl
+  | 1 => rfl
+  | 2 => rfl
+  | k + 3 => simp [hasRecv, kProg]
+
+/-- a table with receives: main spawns R, sends it `(1,0)` then `(2,0)`, awaits it; R first takes the
+message with tag 2 (a filter passing over the older one), then whatever is left -/
+def rProg : Prog :=
+  [[.spawn 1 [], .send 1 1 0, .send 1 2 0, .select [.proc 1]], [.select [.recv (.tag 2)], .select [.recv .any]]]
+
+def rRho : Nat → Nat → Nat
+  | 0, r => r
+  | _, _ => 1
+
+theorem rProg_typed : RegTyping rProg rRho (fun _ => 0) := by
+  refine ⟨rfl, rfl, ?_⟩
+  intro k j a h
+  match k, j, h with
+  | 0, 0, h => simp [rProg] at h; subst h; simp [ActTyped, base, nspawn, rRho, rProg]
+  | 0, 1, h => simp [rProg] at h; subst h; simp [ActTyped]
+  | 0, 2, h => simp [rProg] at h; subst h; simp [ActTyped]
+  | 0, 3, h => simp [rProg] at h; subst h; simp [ActTyped, base, nspawn, rProg]; decide
+  | 0, j + 4, h => simp [rProg] at h
+  | 1, 0, h => simp [rProg] at h; subst h; simp [ActTyped]
+  | 1, 1, h => simp [rProg] at h; subst h; simp [ActTyped]
+  | 1, j + 2, h => simp [rProg] at h
+  | k + 2, j, h => simp [rProg] at h
+
+/-- the trace of the receiver over the stream `[(1,0),(2,0)]`: first `(2,0)`, then `(1,0)` -/
+example : Trace rProg rRho (fun k => if k = 1 then [(1, 0), (2, 0)] else []) 1 2 [keyVal (2, 0), keyVal (1, 0)] [] :=
+  Trace.recv 1 1 [keyVal (2, 0)] [(1, 0)] .any (1, 0) []
+    (Trace.recv 1 0 [] [(1, 0), (2, 0)] (.tag 2) (2, 0) [(1, 0)] (Trace.zero 1) rfl rfl) rfl rfl
 
 /-- the hypotheses are met by a concrete two-worker run: after main's first slice on worker 0, one
 environment step and one step of worker 1, process 1 (script 1) has finished ON WORKER 1 while
